@@ -80,7 +80,8 @@ Record book := {
   b_swapped : list Z;              (* [sum of result.token_in; sum of result.token_out] of accepted packets *)
   b_sent : list Z;                 (* [in; out] amounts of legs acknowledged with success *)
   b_nacks : list Z;                (* per key: write_acknowledgement events seen *)
-  b_outcome : list (Z * Z)         (* per key: final outcome code of (change, forward) leg; 0 = none / not yet *)
+  b_outcome : list (Z * Z);        (* per key: final outcome code of (change, forward) leg; 0 = none / not yet *)
+  b_bank : list Z                  (* bank totals: [supply in; supply out; all escrow accounts in; all escrow accounts out] *)
 }.
 
 Record obs := { o_class : Z (* 0 ok, 1 failed, 2 panicked *); o_view : view; o_book : book }.
@@ -89,6 +90,7 @@ Record hist := {
   h_cfg : cfg;
   h_rcvs : list Z; h_keys : list idx; h_idxs : list idx;
   h_init : view;
+  h_bank0 : list Z;       (* the bank totals of b_bank before the history *)
   h_steps : list (event * obs);
   h_final : bool          (* the relayer delivered a final outcome to every leg *)
 }.
@@ -194,13 +196,18 @@ Definition mon_gone (h : hist) : bool :=
       else true) (combine (h_keys h) (v_keys v)) &&
     (match b_live (o_book o) with [] => (v_ninc v =? 0) && (v_nout v =? 0) | _ => true end)).
 
-(* 7: tokens are never both refunded and re-sent: what is locked by outgoing transfers is exactly
-      what is in flight or acknowledged as delivered (minus what incoming packets released) *)
+(* 7: tokens are never both refunded and re-sent, nothing is burned or escrowed without a packet in
+      flight: on the bank's own totals (voucher supply, balances of all escrow accounts), what outgoing
+      transfers took out of circulation is exactly what is in flight or acknowledged as delivered, minus
+      what incoming packets released *)
 Definition mon_backed (h : hist) : bool :=
   all_obs h (fun v0 o =>
     let v := o_view o in let b := o_book o in
+    let k := b_bank b in let k0 := h_bank0 h in
     (vb v 4 - vb v0 4 =? live_sum b IN + nz (b_sent b) 0 - nz (b_recv b) 0) &&
-    (vb v 5 - vb v0 5 =? live_sum b OUT + nz (b_sent b) 1 - nz (b_recv b) 1)).
+    (vb v 5 - vb v0 5 =? live_sum b OUT + nz (b_sent b) 1 - nz (b_recv b) 1) &&
+    ((nz k 2 - nz k0 2) - (nz k 0 - nz k0 0) =? live_sum b IN + nz (b_sent b) 0 - nz (b_recv b) 0) &&
+    ((nz k 3 - nz k0 3) - (nz k 1 - nz k0 1) =? live_sum b OUT + nz (b_sent b) 1 - nz (b_recv b) 1)).
 
 Definition c11_check (h : hist) : list Z :=
   flag 0 (corr h) ++ flag 1 (mon_module h) ++ flag 2 (mon_funds h) ++ flag 3 (mon_refused h) ++
